@@ -82,7 +82,8 @@ def run_seed(seed, all_checks=False, tier="quick"):
 
 def main():
     args = sys.argv[1:]
-    all_checks = "--all-checks" in args
+    all_checks = "--all-checks" in args or "--expect-silent" in args
+    silent = "--expect-silent" in args
     tier = "quick"
     if "--tier" in args:
         tier = args[args.index("--tier") + 1]
@@ -96,7 +97,12 @@ def main():
             (" HARNESS-ERRORS=" + ",".join(res["harness_errors"])) if res.get("harness_errors") else "",
             (" ERROR " + res["error"]) if res.get("error") else ""))
         sys.stdout.flush()
-        if not res.get("detected_by"):
+        if silent:
+            if res.get("detected_by") or res.get("harness_errors"):
+                print("   FALSE ALARM? " + "; ".join("%s: %s" % (p, res["checks"][p]["first"]) for p in
+                                                        res.get("detected_by", []) + res.get("harness_errors", [])))
+                rc = 1
+        elif not res.get("detected_by"):
             rc = 1
     return rc
 
